@@ -24,7 +24,7 @@ from vp import common
 from vp.common import cz, cn, cb, clist, copt, cstr
 
 IMPORTS = '''From Coq Require Import List ZArith String.
-From VV Require Import Lib.Base Lib.B64 C10.Model C10.Floats C10.Apollo.
+From VV Require Import Lib.Base Lib.B64 C10.Model C10.Floats C10.Apollo C10.Check.
 Import ListNotations.
 Local Open Scope string_scope.
 '''
@@ -751,7 +751,7 @@ def run(ctx):
         indexes.append(t4index[k:k + 150])
     for k in range(0, len(apcases), 40):
         shards.append('Definition cases : list ap3case := [\n ' + ';\n '.join(apcases[k:k + 40]) + '].\n'
-                      'Eval vm_compute in bad_indices (map check_ap3 cases).')
+                      'Eval vm_compute in bad_indices (map check_ap3_wf cases).')
         indexes.append(apindex[k:k + 40])
     outs = common.coq_eval(ctx.pid, IMPORTS, shards)
     for k, out in enumerate(outs):
